@@ -48,6 +48,7 @@ def run(ctx):
     J.verbatim_payload(ctx, 'C05.D1', entries, fn)
     J.time_fields_exact(ctx, 'C05.D1', entries, fn)
     J.number_branch(ctx, 'C05.D1', entries, fn)
+    J.parse_scalar_entry(ctx, 'C05.D2')
     _structure(ctx)
     _freshness(ctx)
     # date-times with a zone name denote the written instant (clause shared with C17.D2)
